@@ -484,7 +484,9 @@ func (env *TravEnv) Run(ctl TravCtl, matching bool) ([]TravEvent, string) {
 var TravKeys = []string{"a", "b", "c", "x", "0", "1", "2", "01", "+1", "-1", "", "a/b", "é",
 	"\xff", "caf\xe9", "\xe2\x82", "a\xffb", "€\xe2",
 	// JSON-Pointer look-alikes: a path segment is taken verbatim, "~0" / "~1" are not escapes
-	"~", "~0", "~1", "~01", "a~1b", "PROGRA~1"}
+	"~", "~0", "~1", "~01", "a~1b", "PROGRA~1",
+	// slashes: a map key is ONE path segment whatever it contains
+	"/", "a//b", "/x", "x/"}
 var travStrs = []string{"", "a", "hello", "hello world", "é€x", "0123456789", "\xff\xfe", "/", "0123456789abcdefghij", "0123456789abcdefghijk"}
 
 type TravGen struct {
